@@ -9,13 +9,20 @@ struct SimAlloc {
 	void free(void *p) { radix_free(p, 0); }
 };
 // mode 0: a value whose lifetime is visible to the harness (a value handed to a reader must not have been destroyed)
+// the key argument is passed as an lvalue of a type that notices being moved from: insert() must forward, not move
+struct Arg { uint64_t v; bool moved = false; explicit Arg(uint64_t x) : v(x) {} Arg(const Arg &o) : v(o.v) {} Arg(Arg &&o) : v(o.v) { o.moved = true; } };
 struct SVal : RVal {
-	SVal(uint64_t k, uint64_t s, uint64_t c) : RVal{k, s, c} { radix_val_ctor(this); }
+	SVal(Arg k, uint64_t s, uint64_t c) : RVal{k.v, s, c} { radix_val_ctor(this); }
 	SVal(const SVal &) = delete;
 	~SVal() { radix_val_dtor(this); }
 };
 using Tree = frg::rcu_radixtree<SVal, SimAlloc>;
-using PTree = frg::rcu_radixtree<RVal, SimAlloc>; // mode 1
+// mode 1: a plain aggregate whose value-initialised representation is not all-zero bytes (a null pointer-to-member is not)
+struct PlainVal { uint64_t key, seq, check; uint64_t RVal::*pm; };
+using PTree = frg::rcu_radixtree<PlainVal, SimAlloc>;
+// mode 3: an over-aligned value type (the allocator then hands out 64-byte aligned blocks)
+struct alignas(64) AVal : RVal { AVal(uint64_t k, uint64_t s, uint64_t c) : RVal{k, s, c} {} };
+using ATree = frg::rcu_radixtree<AVal, SimAlloc>;
 using QTree = frg::rcu_radixtree<RVal *, SimAlloc>; // mode 2: the value is a raw pointer to a record the user owns
 static int g_mode = 0;
 // find() through a const reference where the tree type offers that (the unchanged tree does not): every second lookup
@@ -40,26 +47,37 @@ static void iterate(T *t, void (*cb)(void *, void *), void *ctx) {
 }
 
 extern "C" {
-size_t sut_tree_size() { size_t n = sizeof(Tree); if (sizeof(PTree) > n) n = sizeof(PTree); if (sizeof(QTree) > n) n = sizeof(QTree); return n; }
-void sut_tree_construct(void *mem, int mode) { g_mode = mode; if (mode == 2) new (mem) QTree(); else if (mode) new (mem) PTree(); else new (mem) Tree(); }
-void sut_tree_destroy(void *mem) { if (g_mode == 2) static_cast<QTree *>(mem)->~QTree(); else if (g_mode) static_cast<PTree *>(mem)->~PTree(); else static_cast<Tree *>(mem)->~Tree(); }
+size_t sut_tree_size() { size_t n = sizeof(Tree); if (sizeof(PTree) > n) n = sizeof(PTree); if (sizeof(QTree) > n) n = sizeof(QTree); if (sizeof(ATree) > n) n = sizeof(ATree); return n; }
+size_t sut_value_size(int mode) { return mode == 3 ? sizeof(AVal) : mode == 2 ? sizeof(RVal *) : mode == 1 ? sizeof(PlainVal) : sizeof(SVal); }
+size_t sut_value_align(int mode) { return mode == 3 ? alignof(AVal) : mode == 2 ? alignof(RVal *) : mode == 1 ? alignof(PlainVal) : alignof(SVal); }
+void sut_plain_init(void *out) { PlainVal v{}; __builtin_memcpy(out, &v, sizeof v); } // what a value-initialised mode-1 value looks like
+void sut_tree_construct(void *mem, int mode) { g_mode = mode; if (mode == 3) new (mem) ATree(); else if (mode == 2) new (mem) QTree(); else if (mode) new (mem) PTree(); else new (mem) Tree(); }
+void sut_tree_destroy(void *mem) { if (g_mode == 3) static_cast<ATree *>(mem)->~ATree(); else if (g_mode == 2) static_cast<QTree *>(mem)->~QTree(); else if (g_mode) static_cast<PTree *>(mem)->~PTree(); else static_cast<Tree *>(mem)->~Tree(); }
 void *sut_find(void *tree, uint64_t key, int via_const) {
+	if (g_mode == 3) return static_cast<RVal *>(do_find(static_cast<ATree *>(tree), key, via_const));
 	if (g_mode == 2) return do_find(static_cast<QTree *>(tree), key, via_const);
 	if (g_mode) return do_find(static_cast<PTree *>(tree), key, via_const);
 	return static_cast<RVal *>(do_find(static_cast<Tree *>(tree), key, via_const));
 }
 void *sut_find_or_insert(void *tree, uint64_t key, uint64_t seq, int *inserted, void *rec) {
 	if (g_mode == 2) { auto r = static_cast<QTree *>(tree)->find_or_insert(key, static_cast<RVal *>(rec)); *inserted = r.get<1>(); return r.get<0>(); }
+	if (g_mode == 3) { auto r = static_cast<ATree *>(tree)->find_or_insert(key, key, seq, ~key ^ seq); *inserted = r.get<1>(); return static_cast<RVal *>(r.get<0>()); }
 	if (g_mode) { auto r = static_cast<PTree *>(tree)->find_or_insert(key); *inserted = r.get<1>(); return r.get<0>(); }
-	auto r = static_cast<Tree *>(tree)->find_or_insert(key, key, seq, ~key ^ seq);
+	Arg a(key); uint64_t chk = ~key ^ seq;
+	auto r = static_cast<Tree *>(tree)->find_or_insert(key, a, seq, chk);
+	if (a.moved) radix_arg_moved();
 	*inserted = r.get<1>();
 	return static_cast<RVal *>(r.get<0>());
 }
 void *sut_insert(void *tree, uint64_t key, uint64_t seq, void *rec) {
 	if (g_mode == 2) return static_cast<QTree *>(tree)->insert(key, static_cast<RVal *>(rec));
+	if (g_mode == 3) return static_cast<RVal *>(static_cast<ATree *>(tree)->insert(key, key, seq, ~key ^ seq));
 	if (g_mode) return static_cast<PTree *>(tree)->insert(key);
-	return static_cast<RVal *>(static_cast<Tree *>(tree)->insert(key, key, seq, ~key ^ seq));
+	Arg a(key); uint64_t chk = ~key ^ seq;
+	auto p = static_cast<Tree *>(tree)->insert(key, a, seq, chk);
+	if (a.moved) radix_arg_moved();
+	return static_cast<RVal *>(p);
 }
-void sut_erase(void *tree, uint64_t key) { if (g_mode == 2) static_cast<QTree *>(tree)->erase(key); else if (g_mode) static_cast<PTree *>(tree)->erase(key); else static_cast<Tree *>(tree)->erase(key); }
-void sut_iterate(void *tree, void (*cb)(void *, void *), void *ctx) { if (g_mode == 2) iterate(static_cast<QTree *>(tree), cb, ctx); else if (g_mode) iterate(static_cast<PTree *>(tree), cb, ctx); else iterate(static_cast<Tree *>(tree), cb, ctx); }
+void sut_erase(void *tree, uint64_t key) { if (g_mode == 3) static_cast<ATree *>(tree)->erase(key); else if (g_mode == 2) static_cast<QTree *>(tree)->erase(key); else if (g_mode) static_cast<PTree *>(tree)->erase(key); else static_cast<Tree *>(tree)->erase(key); }
+void sut_iterate(void *tree, void (*cb)(void *, void *), void *ctx) { if (g_mode == 3) iterate(static_cast<ATree *>(tree), cb, ctx); else if (g_mode == 2) iterate(static_cast<QTree *>(tree), cb, ctx); else if (g_mode) iterate(static_cast<PTree *>(tree), cb, ctx); else iterate(static_cast<Tree *>(tree), cb, ctx); }
 }
